@@ -185,7 +185,7 @@ func ruleR15a(h *H) {
 					if inner != nil {
 						skips := false
 						ir.Instrs(f, func(x ssa.Instruction) {
-							if ret, isRet := x.(*ssa.Return); isRet && mayReturnNilError(ret) && ir.Canon(ir.ReturnValues(ret)[len(ret.Results)-1]) != inner.(ssa.Value) {
+							if ret, isRet := x.(*ssa.Return); isRet && len(ret.Results) > 0 && mayReturnNilError(ret) && ir.Canon(ir.ReturnValues(ret)[len(ret.Results)-1]) != inner.(ssa.Value) {
 								if r, _ := ir.Reach(ir.Search{Fn: f, Barrier: ir.Is(inner)}, ir.Is(x)); r {
 									skips = true
 								}
